@@ -7,7 +7,7 @@ A check module (checks/cNN.py) provides
   substrings that must have been entered), MIN_NONTRIVIAL (dict tier->int),
   gen_cases(rng, tier) -> list of JSON-able dicts,
   run_case(case, ctx) -> None   (records into ctx),
-  optional: setup_worker(), EXHAUSTIVE (bool or callable(tier)), finish(merged) hook.
+  optional: setup_worker(), EXHAUSTIVE (bool or callable(tier)), finish(merged) hook, cross_check(merged) -> [(result id, kind, msg, sig)].
 """
 import argparse
 import hashlib
@@ -289,6 +289,18 @@ def main(argv=None):
     anchors.update(d["anchors"])
     extras.append(d.get("extra", {}))
     tree_files.add(d.get("tree_file"))
+
+  # cross-case invariants (a behaviour that must be the same in every case of the run): the check module may turn what
+  # the cases recorded into violations attached to a witness case
+  if hasattr(mod, "cross_check"):
+    try:
+      by_rid = {r["id"]: r for r in merged}
+      for rid, kind, msg, sig in mod.cross_check(merged) or []:
+        sg = {"kind": str(kind)}
+        sg.update({k: str(v) for k, v in (sig or {}).items()})
+        by_rid[rid]["violations"].append({"kind": kind, "msg": str(msg)[:2000], "sig": sg})
+    except Exception as e:
+      inconclusive.append("cross-check-error %r" % (e,))
 
   # ---------------------------------------------------------------- verdict
   known = load_known(prop)
